@@ -26,6 +26,8 @@ number denoted, `D96.wf` the crate's range (`mant < 2^96`, `scale ≤ 28`).
   rescaling, sign operations and comparison (`Decimal_cmp_val`): `Decimal_round_*`, `Decimal_rescale_*`, `Decimal_cmp`;
 * `Overflow` is reported by `+ - *` only when the exact result, rounded to an integer, does not fit 96 bits
   (`Decimal_mul_overflow`, `Decimal_add_overflow`);
+* `Decimal_div_balances_iff`: a quotient the crate returns multiplies back to the dividend exactly iff the exact quotient is a
+  decimal within the range (the arithmetic of F33);
 * text: `Decimal_display_from_str` - `Decimal::from_str(&d.to_string())` gives back `d` (value, scale, sign) for EVERY
   representable decimal, through both accumulator phases of `parse_str_radix_10` and whichever of its `BIG` variants the
   length selects; `Decimal_from_str_shape` - more generally every text `[-]digits[.digits]` with at most 28 places whose
@@ -225,6 +227,40 @@ theorem Decimal_from_i128 (n : Int) (s : Nat) :
     ((∃ d, tryFromI128WithScale n s = .ok d) ↔ (s ≤ 28 ∧ n.natAbs < 2 ^ 96)) ∧
     (s ≤ 28 → n.natAbs < 2 ^ 96 → ∃ d, tryFromI128WithScale n s = .ok d ∧ d.wf ∧ d.int = n ∧ d.scale = s) :=
   ⟨tryFromI128_err n s, tryFromI128_ok n s⟩
+
+/-! ## when a computed quotient multiplies back -/
+
+theorem natAbs_int (d : D96) : d.int.natAbs = d.mant := by
+  cases h : d.neg <;> simp [D96.int, h]
+
+/-- **a computed quotient multiplies back exactly iff the exact quotient is a decimal**: for `q = a / b` as the crate returns it,
+`q · b = a` holds exactly when `a / b` can be written with at most 28 places and a 96-bit mantissa; in every other case the crate's
+answer is a rounded one and `q · b ≠ a`.  This is the arithmetic behind known finding F33 (C16): a CSV conversion COMPUTED by
+division (`amount: compute`, `rate: price_of_secondary`) prints a transaction that okane's own book-keeping finds balanced iff the
+quotient terminates within the crate's range. -/
+theorem Decimal_div_balances_iff (a b q : D96) (ha : a.wf) (hb : b.wf) (h : divImpl a b = .ok q) :
+    val q * val b = val a ↔ ∃ s, s ≤ 28 ∧ ReprAt (val a / val b) s := by
+  obtain ⟨hqwf, hb0, _, _⟩ := Decimal_div_bound a b q ha h
+  constructor
+  · intro hmul
+    refine ⟨q.scale, hqwf.2, q.int, ?_, ?_⟩
+    · rw [natAbs_int]; exact hqwf.1
+    · have : val a / val b = val q := by
+        rw [← hmul]; exact Rat.mul_div_cancel hb0
+      rw [this]; rfl
+  · rintro ⟨s, hs, hrep⟩
+    obtain ⟨r, hr, _, _, _, hv⟩ := Decimal_div_exact a b ha hb hb0 s hs hrep
+    rw [h] at hr
+    injection hr with hr
+    subst hr
+    rw [hv]; exact Rat.div_mul_cancel hb0
+
+/-- non-vacuity, both ways: `2353.41 / 1.25 = 1882.728` multiplies back; `50 / 3` does not -/
+example : (match divImpl ⟨false, 235341, 2⟩ ⟨false, 125, 2⟩ with
+    | .ok q => q.mant * 125 * 10 ^ 2 == 235341 * 10 ^ (q.scale + 2) | _ => false) = true ∧
+    (match divImpl ⟨false, 50, 0⟩ ⟨false, 3, 0⟩ with
+    | .ok q => q.mant * 3 != 50 * 10 ^ q.scale | _ => false) = true := by
+  decide +kernel
 
 /-! ## text -/
 
